@@ -259,7 +259,7 @@ pub fn panic_site(desc: &str) -> String {
         Some(i) => {
             let loc = &desc[i + 4..];
             // strip registry paths to the crate-relative tail
-            let tail = match loc.find("/src/") {
+            let tail = match loc.rfind("/src/") {
                 Some(j) if !loc.starts_with("src/") => {
                     let pre = &loc[..j];
                     let krate = pre.rsplit('/').next().unwrap_or("");
